@@ -86,9 +86,20 @@ class SetupCfgWriter(DependencyWriter):
             dep_sep = "\n"
         else:
             # deps are in same line as install_requires key separated by commas
-            last_dep_line = [
-                line for line in clean_lines if line.endswith(defined_dependencies)
-            ][-1]
+            # the `install_requires = a, b` line itself: another entry further down
+            # (e.g. under extras_require) may end with the same text
+            last_dep_line = next(
+                (
+                    line
+                    for line in clean_lines
+                    if line.startswith("install_requires")
+                    and line.endswith(defined_dependencies)
+                ),
+                None,
+            )
+            if last_dep_line is None:
+                logger.debug("Unable to add dependencies to setup.cfg file.")
+                return None
             dep_sep = ","
 
         # Only look at or below the `install_requires` entry: the same requirement
